@@ -157,14 +157,55 @@ Fixpoint model_run (s : pst) (ops : list oop) : pst * bool * bool :=   (* result
     let '(sf, a, b) := model_run s r in (sf, a, obs_ok (srv s) ncl per && b)
   end.
 
+(* ------------------------------------------------------------------ known classes (decidable on
+   the input; used only if findings F59 / F60 are kept as known findings instead of repaired):
+     59  some batch holds three successful calls of one client in this command order: an
+         Unsubscribe / UnsubscribeAll, then a Subscribe, then an Unsubscribe (the last one's post
+         phase works on the inner map it read during its check, detached and re-created by then)
+     60  some batch holds two successful Subscribe calls of the same (client, query) *)
+Definition ok_call (x : xop) : option call := if (x_res x =? 0)%N then to_call x else None.
+
+Fixpoint stale_unsub (stage1 stage2 : list nat) (xs : list xop) : bool :=
+  match xs with
+  | [] => false
+  | x :: r =>
+    match ok_call x with
+    | Some (CUnsubAll c) => stale_unsub (c :: stage1) stage2 r
+    | Some (CUnsub c _) => memn c stage2 || stale_unsub (c :: stage1) stage2 r
+    | Some (CSub c _) => stale_unsub stage1 (if memn c stage1 then c :: stage2 else stage2) r
+    | None => stale_unsub stage1 stage2 r
+    end
+  end.
+
+Fixpoint dup_sub (seen : list key) (xs : list xop) : bool :=
+  match xs with
+  | [] => false
+  | x :: r =>
+    match ok_call x with
+    | Some (CSub c q) => kmem (c, q) seen || dup_sub ((c, q) :: seen) r
+    | _ => dup_sub seen r
+    end
+  end.
+
+Definition in59 (ops : list oop) : bool :=
+  existsb (fun o => match o with OBatch xs => stale_unsub [] [] xs | _ => false end) ops.
+Definition in60 (ops : list oop) : bool :=
+  existsb (fun o => match o with OBatch xs => dup_sub [] xs | _ => false end) ops.
+
+Definition oclassify (ok : bool) (clause : N) (ops : list oop) : verdict :=
+  if ok then V_ok
+  else if in59 ops then V_known 59
+  else if in60 ops then V_known 60
+  else V_violation clause.
+
 Definition ocheck_case (c : ocase) : verdict :=
   match c with
   | OCase qtab ops incs probes =>
     let '(regf, regok) := reg_run [] ops in
     let '(sf, resok, obsok) := model_run pinit ops in
     first_of [
-      viol (odelivery_ok ops incs) 1;
-      viol (regok && probes_ok regf probes) 6;
+      oclassify (odelivery_ok ops incs) 1 ops;
+      oclassify (regok && probes_ok regf probes) 6 ops;
       mism resok 28;
       mism (obsok && probes_ok (srv sf) probes) 29 ]
   end.
